@@ -8,13 +8,17 @@
 (***************************************************************************)
 EXTENDS Integers, FiniteSets, Sequences, TLC
 
-Cores == {"CALLER", "caller", "CALL ER", "OTHER", "CALL", "CALLERS"}
+Cores == {"CALLER", "caller", "CALL ER", "OTHER", "CALL", "CALLERS", "CALLER%00"}
+\* "%00": the title field is padded with NUL bytes instead of spaces (written %00 here).  Only spaces are insignificant: such a
+\* title is not the acceptable one.  The request is malformed as well (control characters are not allowed in an AE title), so
+\* it may be answered by an abort instead of a rejection - what matters is that it is not established.
+Malformed(k) == k.calling.core = "CALLER%00" \/ k.called.core = "ACCEPTOR%00"
 T(core, lead, trail) == [core |-> core, lead |-> lead, trail |-> trail]
 \* (titles that are a proper part of, or contain, an acceptable title are different titles)
 CallingOpts == {T("CALLER", 0, 0), T("CALLER", 2, 0), T("CALLER", 0, 3), T("CALLER", 1, 1), T("caller", 0, 0), T("CALL ER", 0, 0), T("OTHER", 0, 2),
-                T("CALL", 0, 0), T("CALLERS", 0, 1)}
+                T("CALL", 0, 0), T("CALLERS", 0, 1), T("CALLER%00", 0, 0)}
 RequiredOpts == {{}, {T("CALLER", 0, 0)}, {T("CALLER", 1, 2)}, {T("OTHER", 0, 0), T("CALLER", 0, 1)}, {T("X", 0, 0)}}
-CalledOpts == {T("ACCEPTOR", 0, 0), T("ACCEPTOR", 1, 2), T("acceptor", 0, 0), T("ANY", 0, 0), T("ACCEPT", 0, 0), T("CEPTOR", 0, 1), T("ACCEPTOR1", 0, 0), T("A", 0, 0)}
+CalledOpts == {T("ACCEPTOR", 0, 0), T("ACCEPTOR", 1, 2), T("acceptor", 0, 0), T("ANY", 0, 0), T("ACCEPT", 0, 0), T("CEPTOR", 0, 1), T("ACCEPTOR1", 0, 0), T("A", 0, 0), T("ACCEPTOR%00", 0, 0)}
 OwnOpts == {T("ACCEPTOR", 0, 0), T("ACCEPTOR", 0, 3)}
 \* identity: the request carries no identity item / carries one and no handler is bound / the handler says yes, no, raises
 \* "falsy": the handler's verdict is None (not a positive verdict)
